@@ -100,30 +100,39 @@ def logfile_stream(run):
     if rc != 0:
         run.oblige("the program builds", False, (o + e).decode(errors="replace")[-1500:])
         return
-    d = os.path.join(run.rundir, "logrun")
-    logf = os.path.join(d, "session.json")
-    os.makedirs(d, exist_ok=True)
-    lines = [b"echo short", b"a" * 2047, b"b" * 2048, b"c" * 3000, b"echo last"]
-    got = log_session(binp, os.path.join(d, "r1"), logf, lines)
-    log_session(binp, os.path.join(d, "r2"), logf, [b"echo second-run"])
-    raw = open(logf, "rb").read() if os.path.exists(logf) else b""
-    recs, unparsable = [], []
-    for ln in raw.split(b"\n"):
-        if not ln:
-            continue
-        try:
-            recs.append(json.loads(ln))
-        except ValueError:
-            unparsable.append(ln[:120].decode(errors="replace"))
-    datas = [r.get("data") for r in recs if r.get("msg") == "Shell I/O" and r.get("direction") == "input"]
-    missing = [("%d bytes %r..." % (len(l), l[:10].decode())) for l in lines + [b"echo second-run"] if (l + b"\n").decode() not in datas]
-    problems = {}
-    if unparsable:
-        problems["lines_that_are_not_JSON"] = unparsable[:3]
-    if missing:
-        problems["entered_lines_without_an_exact_input_record"] = missing
-    if not raw.endswith(b"\n"):
-        problems["file_does_not_end_with_a_newline"] = True
+    def session(tag):
+        d = os.path.join(run.rundir, tag)
+        logf = os.path.join(d, "session.json")
+        os.makedirs(d, exist_ok=True)
+        lines = [b"echo short", b"a" * 2047, b"b" * 2048, b"c" * 3000, b"echo last"]
+        got = log_session(binp, os.path.join(d, "r1"), logf, lines)
+        log_session(binp, os.path.join(d, "r2"), logf, [b"echo second-run"])
+        raw = open(logf, "rb").read() if os.path.exists(logf) else b""
+        recs, unparsable = [], []
+        for ln in raw.split(b"\n"):
+            if not ln:
+                continue
+            try:
+                recs.append(json.loads(ln))
+            except ValueError:
+                unparsable.append(ln[:120].decode(errors="replace"))
+        datas = [r.get("data") for r in recs if r.get("msg") == "Shell I/O" and r.get("direction") == "input"]
+        missing = [("%d bytes %r..." % (len(l), l[:10].decode())) for l in lines + [b"echo second-run"] if (l + b"\n").decode() not in datas]
+        problems = {}
+        if unparsable:
+            problems["lines_that_are_not_JSON"] = unparsable[:3]
+        if missing:
+            problems["entered_lines_without_an_exact_input_record"] = missing
+        if not raw.endswith(b"\n"):
+            problems["file_does_not_end_with_a_newline"] = True
+        return lines, recs, problems
+    lines, recs, problems = session("logrun")
+    if problems:
+        # real time, real processes: a session that went wrong is run once more and reported only if it goes wrong again
+        first = problems
+        lines, recs, problems = session("logrun_again")
+        if not problems:
+            run.cov.setdefault("flagged_once_but_not_reproduced", []).append({"stream": "logfile", "cases": [{"first_run": json.dumps(first)[:600]}]})
     if problems:
         run.violation("logfile-incomplete", "the program's log file (two runs appending to it; operator lines of 10 to 3000 characters) is not a sequence of one-line "
                       "JSON objects with an exact 'Shell I/O' input record for every line entered", {"stream": "logfile", "input": {"line_lengths": [len(l) for l in lines],
